@@ -50,7 +50,8 @@ def problem(cfg, rng, pick=None):
         truth["z"] = rng.uniform(2.0, 4.0)
         truth["lens_angle"] = rng.uniform(0.7, 0.9)
     # a region cut out of a larger image: the axes do not start at 0; the particle moves with it
-    off = (3.1, 2.7) if cfg.get("origin") == "offset" else (0.0, 0.0)
+    # (x offset positive, y offset negative: fitted coordinates of both signs)
+    off = (3.1, -4.3) if cfg.get("origin") == "offset" else (0.0, 0.0)
     truth["x"] += off[0]
     truth["y"] += off[1]
     pert = {k: (1.0 if cfg["start"] == "truth" else 1.0 + rng.choice([-1, 1]) * rng.uniform(0.005, 0.02)) for k in truth}
@@ -61,10 +62,10 @@ def problem(cfg, rng, pick=None):
         k = pick if pick in truth else rng.choice(sorted(truth))
         d = rng.uniform(0.01, 0.03)
         if cfg["start"] == "on_upper":
-            box[k] = (box[k][0], truth[k] * (1 + d))
+            box[k] = (box[k][0], truth[k] + abs(truth[k]) * d)
             pert[k] = 1 + 2 * d          # clipped to the bound below
         else:
-            box[k] = (truth[k] * (1 - d), box[k][1])
+            box[k] = (truth[k] - abs(truth[k]) * d, box[k][1])
             pert[k] = 1 - 2 * d
     det = hp.detector_grid(16, 0.2)
     det = det.assign_coords(x=det.x.values + off[0], y=det.y.values + off[1])
@@ -73,24 +74,56 @@ def problem(cfg, rng, pick=None):
                      scaling=truth["alpha"], theory=th_true, **KW)
 
     def U(key, lo, hi):
-        return prior.Uniform(lo, hi, guess=min(hi, max(lo, truth[key] * pert[key])))
+        return prior.Uniform(lo, hi, guess=min(hi, max(lo, truth[key] + abs(truth[key]) * (pert[key] - 1))))
     s = Sphere(n=1.59, r=U("r", *box["r"]), center=(U("x", *box["x"]), U("y", *box["y"]), U("z", *box["z"])))
     theory = MieLens(lens_angle=U("lens_angle", *box["lens_angle"])) if lens else Mie()
     model = AlphaModel(s, alpha=U("alpha", *box["alpha"]), noise_sd=0.05, theory=theory, **KW)
     names = {"r": "r", "x": "center.0", "y": "center.1", "z": "center.2", "alpha": "alpha", "lens_angle": "lens_angle"}
     want = {names[k]: v for k, v in truth.items()}
     npix = 120 if cfg["data"] == "subset" else None
-    strat = NmpfitStrategy(npixels=npix, seed=11) if cfg["strategy"] == "nmpfit" else \
+    # the strategy's own seed decides the pixel subset: 0 is a seed like any other
+    own_seed = 0 if cfg["start"] in ("truth", "on_upper") else 11
+    strat = NmpfitStrategy(npixels=npix, seed=own_seed) if cfg["strategy"] == "nmpfit" else \
         LeastSquaresScipyStrategy(npixels=npix)
     return model, data, strat, want
 
 
+# the pixel subset a strategy draws is internal to the fit (the result of an Nmpfit subset fit holds the whole
+# image): observe it where the strategies call make_subset_data, by wrapping that name in their modules
+SELECTIONS = []
+
+
+def _install_subset_recorder():
+    import holopy.inference.nmpfit as _nm
+    import holopy.inference.scipyfit as _sf
+    from holopy.core.metadata import make_subset_data as _orig
+    if getattr(_nm.make_subset_data, "_verif", False):
+        return
+
+    def recording(data, pixels=None, return_selection=False, seed=None):
+        if pixels is None:
+            return _orig(data, pixels=pixels, return_selection=return_selection, seed=seed)
+        sub, sel = _orig(data, pixels=pixels, return_selection=True, seed=seed)
+        SELECTIONS.append(tuple(int(i) for i in sel))
+        return (sub, sel) if return_selection else sub
+    recording._verif = True
+    _nm.make_subset_data = recording
+    _sf.make_subset_data = recording
+
+
+_install_subset_recorder()
+
+
 def fit_event(cfg, model, data, strat, want, first=None):
     m_txt, s_txt, d_fp = yaml_text(model), yaml_text(strat), fp.fingerprint(data)
-    np.random.seed(7)
+    # a strategy with its own seed must not depend on the global generator's state: the repeat run starts
+    # from another one; the SciPy strategy has no seed argument and draws its subset from the global state
+    np.random.seed(7 if (first is None or getattr(strat, "seed", None) is None) else 8)
+    del SELECTIONS[:]
     with warnings.catch_warnings():
         warnings.simplefilter("ignore")
         res = strat.fit(model, data)
+    res._verif_selection = tuple(SELECTIONS)
     pars = res.parameters
     ev = {"event": "Fit", "cfg": "%(strategy)s/%(data)s/%(start)s/%(theory)s/%(origin)s" % cfg}
     ev["names_ok"] = bool(list(pars) == list(model.parameters))
@@ -114,6 +147,9 @@ def fit_event(cfg, model, data, strat, want, first=None):
     ev["strategy_unchanged"] = bool(yaml_text(strat) == s_txt)
     ev["data_unchanged"] = bool(fp.fingerprint(data) == d_fp)
     ev["scratch_clean"] = bool(not any(hasattr(strat, a) for a in ("_model", "_parameters", "_data", "_guess_lnpriors")))
+    # the pixels a subset fit used are part of the result: a repeat must have used the same ones
+    ev["same_pixels"] = bool(first is None or (fp.same(res.data, first.data) and
+                                               getattr(first, "_verif_selection", None) in (None, res._verif_selection)))
     if first is None:
         ev["mb_repeat"] = -20000
     else:
@@ -123,7 +159,11 @@ def fit_event(cfg, model, data, strat, want, first=None):
     np.random.seed(7)
     with warnings.catch_warnings():
         warnings.simplefilter("ignore")
+        del SELECTIONS[:]
         res_clean = strat.fit(model, data)
+    res_clean._verif_selection = tuple(SELECTIONS)
+    if cfg["data"] == "subset" and not res_clean._verif_selection:
+        raise harness.MachineryError("subset fit without a recorded pixel selection: the recorder is not bound")
     return ev, res_clean
 
 
